@@ -892,6 +892,10 @@ func rootCause(pr *proc, c *check, v verdictT) verdictT {
 	if v.key == "" || v.skip != "" || pr == nil {
 		return v
 	}
+	// only a WRONG RESULT of an accepted mask can have this cause: a refused path set, a failing op, the union classes keep their key
+	if strings.HasPrefix(v.key, "union-") || strings.HasPrefix(v.key, "read:union-") || v.key == "valid-paths-rejected" || strings.HasSuffix(v.key, "-fails") || v.key == "driver" {
+		return v
+	}
 	t := *c
 	changed := false
 	if c.black && !c.isNil && hasShadow(c.tree) {
